@@ -3,6 +3,7 @@ import TexcraftModel.Lemmas.C17Scaled
 import TexcraftModel.Lemmas.C17Cover
 import TexcraftModel.Lemmas.C17Compress
 import TexcraftModel.Lemmas.C17Graph
+import TexcraftModel.Lemmas.C17NLAlgo
 /-!
 # C17 — font-metric arithmetic: theorems
 
@@ -148,14 +149,42 @@ theorem next_larger_spec (g : List (Nat × Nat)) (c : Nat) :
 example : nlGet [(0, 1), (1, 2), (2, 3), (3, 1)] 0 = [1, 2, 3] ∧
     cutNxt [(0, 1), (1, 2), (2, 3), (3, 1)] 3 = none := by decide
 
-/-- Not proved (kept as the full statement): the deterministic transcription of the work-list
-algorithm of `NextLargerProgram::new` (leaf stripping, cut at the largest remaining non-leaf;
-`nlAlgoGraph` in the model) removes exactly the links that `cutNxt` removes. The driver
-evaluates this equality on every generated graph (`algo=1`, reported as `model-vs-spec`
-otherwise) and the correspondence compares the real `get(c)`/warnings with `cutNxt`/`nlGet`
-directly; `next_larger_spec` above is about `cutNxt`/`nlGet`. -/
-def next_larger_algo_full_statement : Prop :=
-  ∀ (g : List (Nat × Nat)) (c : Nat), nxt (nlAlgoGraph g) c = cutNxt g c
+/-- **next_larger_algo.** The clause-by-clause transcription of `NextLargerProgram::new` and
+`get` (`Model/C17NL.lean`: in-degree counts, the work-list loop with leaf stripping and the cut
+at the largest remaining non-leaf, the `next_larger` vector with offsets, `entrypoints`, the
+iterator) equals the cut-graph specification, for every functional graph `g` on characters
+`< 256` and **every** iteration order `order` of the `HashMap` `node_to_num_smaller`:
+no `expect`/`checked_sub`/`try_into` fires, the fuel `2·|nodes| + 2` is never exhausted, the
+`InfiniteLoop` warnings are the cuts in ascending order, and `get(c)` is the chain of the cut
+graph for every `c` — hence (by `next_larger_spec`) finite, following the font's links, cut
+only at the largest character of a cycle. -/
+theorem next_larger_algo (g : List (Nat × Nat)) (hF : Functional g)
+    (hLab : ∀ e ∈ g, e.1 < 256 ∧ e.2 < 256) (order : List Nat) (hnd : order.Nodup)
+    (hmem : ∀ x, x ∈ order ↔ IsNode g x) :
+    ∃ prog, nlCompile g order = .ok (prog, nlLoops g 255) ∧ ∀ c, progGet prog c = nlGet g c :=
+  nlCompile_correct g hF hLab order hnd hmem
+
+/-- **next_larger_first_loop.** The first loop of `new` (existence filter, optional drop) keeps
+a sub-list of the edges, so the kept map of a font (one NEXTLARGER per character) is functional:
+the hypotheses of `next_larger_algo` hold for what `new` is given by `.pl`/`.tfm` files. -/
+theorem next_larger_first_loop (exist : Nat → Bool) (dropNE : Bool) (edges : List (Nat × Nat))
+    (hn : (edges.map Prod.fst).Nodup) (hLab : ∀ e ∈ edges, e.1 < 256 ∧ e.2 < 256) :
+    Functional (nlEdges exist dropNE edges [] []).1 ∧
+    ∀ e ∈ (nlEdges exist dropNE edges [] []).1, e.1 < 256 ∧ e.2 < 256 := by
+  refine ⟨nlEdges_functional exist dropNE edges [] [] hn (by simp [Functional]) (by simp), ?_⟩
+  intro e he
+  rcases nlEdges_sub exist dropNE edges [] [] e he with h | h
+  · exact hLab e h
+  · simp at h
+
+/-- Non-vacuity: the 3-cycle with a tail, the `HashMap` iterated in the order 3, 1, 0, 2. -/
+example : (match nlCompile [(0, 1), (1, 2), (2, 3), (3, 1)] [3, 1, 0, 2] with
+    | .ok (p, w) => (progGet p 0, progGet p 3, w)
+    | _ => ([], [], [])) = ([1, 2, 3], [], [(3, 1)]) := by decide
+
+/-- Outside the hypothesis (two links for one character) the transcription panics like the
+Rust code ("General graph fact…"). -/
+example : nlCompile [(1, 3), (1, 2)] [1, 2, 3] = .panic := by decide
 
 /-! ## 4. `compress` -/
 
@@ -200,6 +229,18 @@ theorem compress_spec (values : List Int) (maxSize : Nat) (hmax : 1 ≤ maxSize)
     (hr : ∀ v ∈ values, -2147483648 ≤ v ∧ v ≤ 2147483647) :
     ∃ table m, compress values maxSize = .ok (table, m) ∧ CompressSpec values maxSize table m :=
   compress_meets_spec values maxSize hmax hr
+
+/-- **compress_tolerance_attained.** The same, with the tolerance `δ` made explicit and shown to
+be *attained*: unless `δ = 0`, two input values exactly `δ` apart are in one class. Together with
+`no_integer_representative_better` this is the exact form of "within half the tolerance": the
+bound `2|v − rep| ≤ δ + δ mod 2` of `CompressSpecAt` is `2|v − rep| ≤ δ` when `δ` is even, and
+when `δ` is odd the class that attains `δ` admits no integer representative with
+`2|v − rep| ≤ δ` for both of its ends — `δ + 1` is then the best possible. -/
+theorem compress_tolerance_attained (values : List Int) (maxSize : Nat) (hmax : 1 ≤ maxSize)
+    (hr : ∀ v ∈ values, -2147483648 ≤ v ∧ v ≤ 2147483647) :
+    ∃ table m δ, compress values maxSize = .ok (table, m) ∧ 0 ≤ δ ∧
+      CompressSpecAt values maxSize table m δ ∧ Attained values m δ :=
+  compress_meets_spec_strong values maxSize hmax hr
 
 /-- **representative_optimal.** The representative the code chooses for an interval
 `first ≤ … ≤ last`, `(last + first) / 2`, is a best integer centre: for every member `v` and
